@@ -43,7 +43,7 @@ MCVarOptSet(c) ==
       s \in {"named", "tuple"}, m \in (IF c.kind = "enum" /\ HasTrait(c, "Default") THEN BOOLEAN ELSE {FALSE}) }
 
 Classes(c) ==
-  CASE c.opts.gen = "TU" -> {"T", "U", "WrapT", "PairTU", "conc"}
+  CASE c.opts.gen = "TU" -> {"T", "U", "WrapT", "PairTU", "conc", "ArrT"}
     [] c.opts.gen = "rich" -> {"T", "WrapT", "PhantomT", "conc"}
     [] OTHER -> {"RefT", "U", "PhantomT", "conc"}            \* (T is unsized: only behind a reference)
 Choices(c) ==
